@@ -2,7 +2,7 @@
 (* C06 in the model: free interleaving of one reader (snapshot acquisition steps) and one
    committing writer (publication steps).  TLC enumerates every reachable snapshot vector of the
    reader; for every distinct vector of PROBE versions it prints one witness schedule
-   <<"SCHED", probe-versions..., "RWRW...">> which the driver replays on the real server with the
+   <<"SCHED", "probe versions", "RWRW...">> which the driver replays on the real server with the
    H3 pause controller.  L1 on the model is reported as hypotheses (<<"MIXED", ...>>), never as
    an alarm: whether a mixed vector is observable is decided by the replay.                    *)
 EXTENDS KTxn
@@ -39,5 +39,8 @@ Consistent == Done => SnapshotConsistent(PV)
 CacheNeverAheadOfSqlite == Done => (rd["entry_cache"] <= rd["sqlite"] /\ rd["idl_cache"] <= rd["sqlite"]
                                      /\ rd["name_cache"] <= rd["sqlite"])
 \* ---- witness emission: one line per final state (the orchestrator keeps one per probe vector)
-Emit == Done => PrintT(<<"SCHED", PV.sch, PV.dn, PV.acp, PV.oa, PV.ea, PV.eb, PV.n2u, PV.idx, sched>>)
+\* (short tuples only: TLC's pretty printer re-formats tuples wider than 80 columns)
+D(x) == ToString(x)
+VecStr == D(PV.sch) \o D(PV.dn) \o D(PV.acp) \o D(PV.oa) \o D(PV.ea) \o D(PV.eb) \o D(PV.n2u) \o D(PV.idx)
+Emit == Done => IF Fine THEN PrintT(<<"VEC", VecStr>>) ELSE PrintT(<<"SCHED", VecStr, sched>>)
 =============================================================================
